@@ -1,5 +1,5 @@
 (* Soundness theorem of the write-idempotence discipline with loops and reference arrays. *)
-From NiflyVerif Require Import IR Exec IREq Refs RtDefs RtProofs WiDefs WiProofs WkDefs EncInj WkProofs WkRefArr.
+From NiflyVerif Require Import IR Exec IREq Refs RtDefs RtProofs WiDefs WiProofs WkDefs EncInj WkProofs WkRefArr WkVec.
 Local Open Scope N_scope.
 
 Section Wk.
@@ -18,6 +18,16 @@ Section Wk.
     intros H. inversion H; subst. clear H.
     apply andb_prop in E. destruct E as [E E4]. apply andb_prop in E. destruct E as [E E3]. apply andb_prop in E. destruct E as [E1 E2].
     apply N.eqb_eq in E1, E3. apply idx_eqb_eq in E2, E4. subst. exists w. split; reflexivity.
+  Qed.
+
+  Lemma is_vecresize_spec a b f idx w x :
+    is_vecresize a b = Some (f, idx, w, x) -> a = SVecSize f idx w x /\ b = SResize f idx (ELocal x).
+  Proof.
+    unfold is_vecresize. destruct a; try discriminate. destruct b; try discriminate. destruct n; try discriminate.
+    destruct ((f1 =? f0) && idx_eqb idx1 idx0 && (x1 =? x0))%bool eqn:E; [|discriminate].
+    intros H. inversion H; subst. clear H.
+    apply andb_prop in E. destruct E as [E E3]. apply andb_prop in E. destruct E as [E1 E2].
+    apply N.eqb_eq in E1, E3. apply idx_eqb_eq in E2. subst. split; reflexivity.
   Qed.
 
   (* ---- syntactic facts about the checker ---- *)
@@ -71,6 +81,13 @@ Section Wk.
         destruct (wn_eqb n (WSize frefs)) eqn:A2.
         { apply wn_eqb_eq in A2. subst n. cbn [wn_eqb]. rewrite N.eqb_refl. cbn. auto. }
         cbn [orb] in E. apply wn_eqb_eq in E. subst n. cbn [wn_eqb]. rewrite N.eqb_refl. cbn. auto. }
+      destruct (is_vecresize s1 s2) as [[[[vf vidx] vw] vx]|] eqn:EV.
+      { destruct (is_vecresize_spec _ _ _ _ _ _ EV) as (-> & ->).
+        match type of H with (if ?b then _ else _) = Some _ => destruct b; [|discriminate] end. inversion H; subst. clear H.
+        cbn [loop_cons] in HQ. destruct (pos_of x vidx) as [p0|] eqn:Ep; [|discriminate]. inversion HQ; subst Q. clear HQ.
+        split. { intros a Ha. rewrite wmem_cons, Ha, orb_true_r. reflexivity. }
+        intros n E E0. rewrite wmem_cons, E0, orb_false_r in E. apply wn_eqb_eq in E. subst n.
+        exists p0. unfold cons_of. cbn. rewrite N.eqb_refl. cbn. auto. }
       destruct (kchk Wtot v P s1 C L) as [[Ca La]|] eqn:E1; [|discriminate].
       destruct (loop_cons x s1) as [q1|] eqn:Q1; [|discriminate]. destruct (loop_cons x s2) as [q2|] eqn:Q2; [|discriminate].
       inversion HQ; subst Q.
@@ -144,6 +161,10 @@ Section Wk.
         destruct (wn_eqb a (WInt fsize)) eqn:A3; [apply wn_eqb_eq in A3; subst a; right|].
         { match goal with Hw : writable Wtot C (WInt fsize) = true |- _ => unfold writable in Hw; apply andb_prop in Hw; apply Hw end. }
         left. exact Ha. }
+      destruct (is_vecresize s1 s2) as [[[[vf vidx] vw] vx]|] eqn:EV.
+      { match type of H with (if ?b then _ else _) = Some _ => destruct b eqn:EB; [|discriminate] end. inversion H; subst. clear H.
+        repeat match goal with E : (_ && _)%bool = true |- _ => apply andb_prop in E; destruct E end.
+        eapply Hc; eauto. }
       destruct (kchk Wtot v P s1 C L) as [[Ca La]|] eqn:E1; [|discriminate].
       destruct (IHs2 _ _ _ _ _ H a Ha) as [H1|H1]; [|right; exact H1]. eapply IHs1; eauto.
     - destruct (ver_only v c) as [z|] eqn:Ev.
@@ -169,6 +190,12 @@ Section Wk.
         repeat match goal with E : (_ && _)%bool = true |- _ => apply andb_prop in E; destruct E end.
         repeat match goal with E : negb _ = true |- _ => apply negb_true_iff in E end.
         apply (wk_refarr v hs Wtot sf P fsize fkeep frefs fidx idx0 w0 j0 C L'); assumption. }
+      destruct (is_vecresize s1 s2) as [[[[vf vidx] vw] vx]|] eqn:EV.
+      { destruct (is_vecresize_spec _ _ _ _ _ _ EV) as (-> & ->).
+        match type of H with (if ?b then _ else _) = Some _ => destruct b eqn:EB; [|discriminate] end. inversion H; subst. clear H.
+        repeat match goal with E : (_ && _)%bool = true |- _ => apply andb_prop in E; destruct E end.
+        repeat match goal with E : negb _ = true |- _ => apply negb_true_iff in E end.
+        apply wk_vecresize; try assumption. apply N.ltb_lt. assumption. }
       destruct (kchk Wtot v P s1 C L) as [[C1 L1]|] eqn:E1; [|discriminate]. eapply wk_seq; eauto.
     - destruct (ver_only v c) as [z|] eqn:Ev.
       + eapply wk_if_ver; [exact Ev|]. destruct (Z.eqb z 0); auto.
